@@ -116,6 +116,7 @@ func checkC03(c *Ctx) {
 	checkRangeFilters(c, "C03.R2.range-filters", ev, reviewedRangeFilters, 25)
 	checkDefaultInitAgreement(c, ev)
 	checkFormatGuards(c, "C03.R2.format-guards", ev, 2)
+	checkOptionalFile(c, "C03.R2.optional-file", ev)
 	checkFreshParams(c, ev)
 
 	// ---- R3 Go side
